@@ -134,6 +134,8 @@ type KDC struct {
 	Expect     Expect
 	Issued     []Issued
 	Requests   []Request
+	// ErrorEText, when set, is sent as the e-text of every KRB-ERROR (MIT KDCs send one, Active Directory usually does not)
+	ErrorEText string
 	// StrictRenewal: a ticket that has ended cannot be renewed any more, whatever its renew-till time.
 	StrictRenewal bool
 	// FreshKeyOnRenew: renewed tickets carry a new session key instead of keeping the old one.
@@ -229,6 +231,9 @@ func (k *KDC) errReply(code int32, req *krbmsg.KDCReq, edata []byte) []byte {
 		if req.Body.SName != nil {
 			e.SName = *req.Body.SName
 		}
+	}
+	if k.ErrorEText != "" {
+		e.EText = krbmsg.Str(k.ErrorEText)
 	}
 	if len(k.Requests) > 0 {
 		k.Requests[len(k.Requests)-1].ReplyKind = fmt.Sprintf("ERR-%d", code)
